@@ -169,6 +169,7 @@ type qres struct {
 	TrustQs int                               // distinct sub-query questions (see subQuestions) that reached an upstream
 	FBPkts  int64                             // packets the failover fallback server received
 	Latched int                               // kind+1 of the rejection latched when Chain.Next returned (0 = none)
+	Booked  string                            // servers the shared circuit breaker holds failures against after the query ("" = none)
 }
 
 func (r qres) packets() int64 {
@@ -282,6 +283,14 @@ func (sp *sysPipe) queryWith(name string, qtype uint16, edns, do bool, client st
 	out.TrustQs = len(subQuestions(sp.T.W, name, logFrom)) // asked during this query
 	if sp.T.Fallback != nil {
 		out.FBPkts = sp.T.Fallback.UDPQueries.Load() + sp.T.Fallback.TCPQueries.Load() - fb0
+	}
+	if sp.P.Resolver != nil {
+		var bs []string
+		for addr, n := range resolver.VerifC12BreakerFailures(sp.P.Resolver) {
+			bs = append(bs, fmt.Sprintf("%s:%d", addr, n))
+		}
+		sort.Strings(bs)
+		out.Booked = strings.Join(bs, ",")
 	}
 	if ledger != nil {
 		s := ledger.Snapshot()
